@@ -20,7 +20,7 @@ DEV = "DEV_FoldIntModFloatIsZero"
 def fold_cfg(dev, emit, deep=False):
     return vlib.cfg_text(spec="Spec", constants={"DEV_FoldIntModFloatIsZero": dev, "EmitCases": emit, "Deep": deep,
                                                   "DEV_OtherwiseFlagIsGlobal": False, "DEV_MemoKeyedByValueOnly": False,
-                                                  "DEV_MemoCachesFailure": False},
+                                                  "DEV_MemoCachesFailure": False, "YearOpt": False},
                          invariants=["FoldPreservesValue", "RejectsOnlyZeroDivisor", "FoldsToLiteral", "CheckerRejectImpliesFoldReject", "Emit"])
 
 
@@ -114,7 +114,7 @@ def run(ctx):
         if DEV in devs:
             rd = vlib.tlc(ctx, "Fold", vlib.cfg_text(spec="Spec", constants={
                 "DEV_FoldIntModFloatIsZero": True, "EmitCases": True, "Deep": ctx.thorough, "DEV_OtherwiseFlagIsGlobal": False,
-                "DEV_MemoKeyedByValueOnly": False, "DEV_MemoCachesFailure": False}, invariants=["Emit"]),
+                "DEV_MemoKeyedByValueOnly": False, "DEV_MemoCachesFailure": False, "YearOpt": False}, invariants=["Emit"]),
                 label="Fold-dev-emit", timeout=1200, heap="12g")
             devcases = {json.dumps(c["e"], sort_keys=True): c for c in rd.cases}
         nexp = 0
